@@ -1,4 +1,4 @@
-import GB.C01.Spec
+import GB.C01.Forward
 /-
   Projection lemmas for the helper functions of the Forward LTS (so that `simp` never has to unfold a
   whole state record), and the generic "one step = stepCore + fault flag" lemma.
@@ -68,6 +68,15 @@ def After.ch (old : Option (Option (Err E))) : After M E → Option (Option (Err
 @[simp] theorem enterAfter_gLost (s : State M E) (k : After M E) : (enterAfter s k).gLost = s.gLost := by cases k <;> rfl
 @[simp] theorem afterRecv_gLost (s : State M E) (h t : Bool) (k : After M E) : (afterRecv s h t k).gLost = s.gLost := by cases h <;> cases t <;> cases k <;> rfl
 @[simp] theorem beginReturn_gLost (s : State M E) (c : Bool) (e : Option (Err E)) : (beginReturn s c e).gLost = s.gLost := rfl
+@[simp] theorem enterAfter_gErrs (s : State M E) (k : After M E) : (enterAfter s k).gErrs = s.gErrs := by cases k <;> rfl
+@[simp] theorem afterRecv_gErrs (s : State M E) (h t : Bool) (k : After M E) : (afterRecv s h t k).gErrs = s.gErrs := by cases h <;> cases t <;> cases k <;> rfl
+@[simp] theorem beginReturn_gErrs (s : State M E) (c : Bool) (e : Option (Err E)) : (beginReturn s c e).gErrs = s.gErrs := rfl
+@[simp] theorem enterAfter_gCtxs (s : State M E) (k : After M E) : (enterAfter s k).gCtxs = s.gCtxs := by cases k <;> rfl
+@[simp] theorem afterRecv_gCtxs (s : State M E) (h t : Bool) (k : After M E) : (afterRecv s h t k).gCtxs = s.gCtxs := by cases h <;> cases t <;> cases k <;> rfl
+@[simp] theorem beginReturn_gCtxs (s : State M E) (c : Bool) (e : Option (Err E)) : (beginReturn s c e).gCtxs = s.gCtxs := rfl
+@[simp] theorem enterAfter_gClientEOF (s : State M E) (k : After M E) : (enterAfter s k).gClientEOF = s.gClientEOF := by cases k <;> rfl
+@[simp] theorem afterRecv_gClientEOF (s : State M E) (h t : Bool) (k : After M E) : (afterRecv s h t k).gClientEOF = s.gClientEOF := by cases h <;> cases t <;> cases k <;> rfl
+@[simp] theorem beginReturn_gClientEOF (s : State M E) (c : Bool) (e : Option (Err E)) : (beginReturn s c e).gClientEOF = s.gClientEOF := rfl
 @[simp] theorem beginReturn_main (s : State M E) (c : Bool) (e : Option (Err E)) :
     (beginReturn s c e).main = if c then .deferClose e else .deferCancel e := rfl
 
@@ -76,7 +85,11 @@ attribute [simp] IPc.gone.eq_1 IPc.gone.eq_2 IPc.gone.eq_3 IPc.gone.eq_4 IPc.gon
 variable [DecidableEq M] [DecidableEq E]
 
 theorem step_core {p : Params} {s s' : State M E} {l : Label M E} (hs : step p s l = some s') :
-    ∃ s1, stepCore p s l = some s1 ∧ s' = { s1 with gFault := s1.gFault || faultLabel l } := by
+    ∃ s1, stepCore p s l = some s1 ∧ s' = { s1 with
+      gFault := s1.gFault || faultLabel l
+      gErrs := s1.gErrs ++ (peerErr? l).toList
+      gCtxs := s1.gCtxs ++ (ctxWhy? l).toList
+      gClientEOF := s1.gClientEOF || isClientEOF l } := by
   unfold step at hs
   cases hc : stepCore p s l with
   | none => simp [hc] at hs
